@@ -225,3 +225,14 @@ for _cid, _what in [("C03", "publish decision = attached AND W in want&given; a 
               parts=[Part("msg", SRV, "^TestVerif%sMsg$" % _cid, instr=True, gomaxprocs=16, deadline=(400, 3000))] +
                     ([Part("p2p", SRV, "^TestVerif%sP2P$" % _cid, instr=True, gomaxprocs=16, deadline=(300, 2400))] if _cid in ("C03", "C09") else []) +
                     ([Part("ranges", TYPES, "^TestVerifC04Ranges$", shards=(16, 16))] if _cid == "C04" else [])))
+
+reg(Check("C11", "model_checking",
+          "BFS over sequences of 31 client messages (5 handshakes, 13 logins incl. wrong password / expired / no-login / suspended / deleted / "
+          "needs-validation / root tokens, 2 account creations, 9 privileged requests incl. on-behalf-of, 2 notes) on a fresh connection, "
+          "depth 4 quick / 6 thorough, against a 3-state machine; the session's own uid/level/version are compared with the model after every step",
+          ["canonical schedule", "bcrypt runs at minimal cost in the instrumented build"],
+          text=XS_NOTE, note="the sender-header clause is also checked on every publish of the msg model",
+          technique="explicit-state model checking over the real session handlers against a reference state machine",
+          engine="E2 xstate", claimed=False,
+          parts=[Part("session", SRV, "^TestVerifC11Session$", instr=True, gomaxprocs=16, deadline=(300, 2400)),
+                 Part("msg", SRV, "^TestVerifC11Msg$", instr=True, gomaxprocs=16, deadline=(400, 3000))]))
